@@ -27,10 +27,11 @@ J_DAYS = {1: ["یک", "اول"], 2: ["دو"], 3: ["سه", "سو"], 4: ["چهار
           11: ["یازده"], 12: ["دوازده"], 13: ["سیزده"], 14: ["چهارده"], 15: ["پانزده"], 16: ["شانزده"], 17: ["هفده"], 18: ["هجده"],
           19: ["نوزده"], 20: ["بیست"], 21: ["بیست و یک"], 22: ["بیست و دو"], 23: ["بیست و سه"], 24: ["بیست و چهار"], 25: ["بیست و پنج"],
           26: ["بیست و شش"], 27: ["بیست و هفت"], 28: ["بیست و هشت"], 29: ["بیست و نه"], 30: ["سی"], 31: ["سی و یک"]}
-J_FORMS = ["y/m/d", "y-m-d", "persian-digits", "name", "name-persian-digits", "weekday-name", "spelled-day", "d/m/y"]
+J_FORMS = ["y/m/d", "y-m-d", "persian-digits", "name", "name-persian-digits", "weekday-name", "spelled-day", "d/m/y", "m/d/y", "name-first",
+           "name-first-spelled"]
 J_TIMES = ["", " ساعت 9:32", " 19:47", " ساعت 11 و 01 دقیقه و 47 ثانیه"]
 J_TIME_VAL = [(0, 0, 0), (9, 32, 0), (19, 47, 0), (11, 1, 47)]
-H_FORMS = ["y/m/d", "y-m-d", "d-m-y", "d-m-y هـ"]
+H_FORMS = ["y/m/d", "y-m-d", "d-m-y", "d-m-y هـ", "m-d-y", "m/d/y"]
 H_TIMES = ["", ", 09:40 صباحاً", " 08:30 مساءً", " 23:59"]
 H_TIME_VAL = [(0, 0, 0), (9, 40, 0), (20, 30, 0), (23, 59, 0)]
 _memo_installed = False
@@ -70,6 +71,13 @@ def jalali_string(form, y, m, d, msp, dsp, wd, tsuf):
         s = "%04d-%02d-%02d" % (y, m, d)
     elif form == "d/m/y":
         s = "%02d/%02d/%04d" % (d, m, y)
+    elif form == "m/d/y":
+        s = "%02d/%02d/%04d" % (m, d, y)
+    elif form == "name-first":
+        s = "%s %d %d" % (J_MONTHS[m - 1][msp % len(J_MONTHS[m - 1])], d, y)
+    elif form == "name-first-spelled":
+        words = J_DAYS[d]
+        s = "%s %s %s" % (J_MONTHS[m - 1][msp % len(J_MONTHS[m - 1])], words[dsp % len(words)], pdig("%d" % y))
     elif form == "persian-digits":
         s = pdig("%04d/%02d/%02d" % (y, m, d))
     elif form == "name":
@@ -91,8 +99,8 @@ def spaces(tier, seed):
         Product("jalali-boundary-years", {"cal": ["jalali"], "y": byears, "m": range(1, 13), "d": range(1, 32), "form": J_FORMS,
                                           "msp": [0, 1], "dsp": [0, 1], "t": [0, 1] if not T else range(4)}),
         Product("jalali-boundary-days-all-years", {"cal": ["jalali"], "y": range(1200, 1501), "md": [(1, 1), (12, 29), (12, 30), (6, 31), (7, 30), (7, 1)],
-                                                   "form": ["y/m/d", "name", "spelled-day"], "msp": [0], "dsp": [0], "t": [0, 3]}),
-        Product("hijri-all-dates", {"cal": ["hijri"], "y": range(1343, 1501), "m": range(1, 13), "d": range(1, 31), "form": ["y/m/d"], "t": [0]},
+                                                   "form": ["y/m/d", "name", "spelled-day", "m/d/y", "name-first"], "msp": [0], "dsp": [0], "t": [0, 3]}),
+        Product("hijri-all-dates", {"cal": ["hijri"], "y": range(1343, 1501), "m": range(1, 13), "d": range(1, 31), "form": ["y/m/d", "m-d-y"], "t": [0]},
                 note="every Hijri date of the supported range"),
         Product("hijri-forms", {"cal": ["hijri"], "y": [1343, 1389, 1390, 1400, 1432, 1433, 1437, 1445, 1446, 1499, 1500], "m": range(1, 13),
                                 "d": range(1, 31), "form": H_FORMS, "t": range(4)}),
@@ -117,9 +125,9 @@ def run_case(sub, c):
         form = c["form"]
         if form == "d/m/y" and d <= 12:
             return None
-        if form in ("y/m/d", "y-m-d", "persian-digits", "d/m/y") and (c["msp"] or c["dsp"]):
+        if form in ("y/m/d", "y-m-d", "persian-digits", "d/m/y", "m/d/y") and (c["msp"] or c["dsp"]):
             return None
-        if form != "spelled-day" and c["dsp"]:
+        if form not in ("spelled-day", "name-first-spelled") and c["dsp"]:
             return None
         g = persian.to_gregorian(y, m, d)
         wd = datetime(*g).weekday()
@@ -142,6 +150,10 @@ def run_case(sub, c):
             s = "%04d-%02d-%02d" % (y, m, d)
         elif form == "d-m-y":
             s = "%02d-%02d-%04d" % (d, m, y)
+        elif form == "m-d-y":
+            s = "%02d-%02d-%04d" % (m, d, y)
+        elif form == "m/d/y":
+            s = "%02d/%02d/%04d" % (m, d, y)
         else:
             s = "%02d-%02d-%04d هـ" % (d, m, y)
         s += H_TIMES[t]
